@@ -181,7 +181,14 @@ func operatorOf(t *Term) *Term {
 }
 
 // sigUnchanged: fn still has the parameter types of the reviewed tree (receiver included).
+// configDefaults: constructors of default parameters and of the default genesis state - their values are deployment
+// choices (another default delay or interval is a configuration change, not a change of what an effect is applied to).
+var configDefaults = map[string]bool{"types.NewParams": true, "types.DefaultParams": true, "types.DefaultGenesisState": true, "alliance.DefaultGenesisState": true}
+
 func sigUnchanged(fn *ssa.Function) bool {
+	if configDefaults[FuncKey(fn)] {
+		return false
+	}
 	base, ok := baselineParams[FuncKey(fn)]
 	if !ok {
 		return len(fn.Params) == 0
